@@ -271,7 +271,11 @@ def build_cf2d(spec):
             for i in range(ni):
                 if holes[j][i]:
                     continue
-                for c, (a, b) in enumerate(cell_corner_nodes(j, i)):
+                corners = cell_corner_nodes(j, i)
+                if [j, i] in (g.get("twisted") or []):
+                    # stored corners out of order: a self-intersecting (bow tie) cell
+                    corners = [corners[0], corners[2], corners[1], corners[3]]
+                for c, (a, b) in enumerate(corners):
                     bx[j, i, c] = nodes[a][b][0]
                     by[j, i, c] = nodes[a][b][1]
         lat_attrs["bounds"] = n["lat"] + "_bnds"
